@@ -428,6 +428,26 @@ func runC13Wire(c *Ctx) {
 	for _, k := range []string{"hole", "dial"} { // long outages add nothing here
 		delete(sc.faults, k)
 	}
+	if sc.initLen >= 23 && t.Bool(1, 2) {
+		// a fork among announced but not yet requested blocks: reorganise during the catch-up
+		ev := chainEvent{kind: "reorg", after: time.Duration(t.Choose(2500)) * time.Millisecond}
+		ev.d = 1 + int(t.Choose(uint32(sc.initLen-12)))
+		ev.k = ev.d + pickFrom(t, 1, 1, 2, 5)
+		sc.events = append([]chainEvent{ev}, sc.events...)
+	}
+	if t.Bool(1, 2) {
+		// once in sync (the peer announces by headers then): a burst of more blocks than the window
+		// holds, and a fork among the ones still waiting to be requested right behind it
+		k := 12 + int(t.Choose(10))
+		burst := chainEvent{kind: "extend", k: k, after: time.Duration(3000+t.Choose(9000)) * time.Millisecond}
+		fork := chainEvent{kind: "reorg", after: time.Duration(t.Choose(uint32(pickFrom(t, 5, 50, 400)))) * time.Millisecond}
+		fork.d = 1 + int(t.Choose(uint32(k-10)))
+		fork.k = fork.d + pickFrom(t, 1, 1, 2, 4)
+		at := int(t.Choose(uint32(len(sc.events) + 1)))
+		evs := append([]chainEvent{}, sc.events[:at]...)
+		evs = append(evs, burst, fork)
+		sc.events = append(evs, sc.events[at:]...)
+	}
 	cr := newChainRun(c, sc)
 	ns := cr.ns
 	ns.KeepNodeWrites = true
@@ -630,6 +650,109 @@ func c13judgeWire(c *Ctx, ns *NodeSim) {
 			win = win[1:]
 		}
 		prev = b
+	}
+	// --- forks: requests beyond the fork point are discarded, the new branch is requested --------
+	type hdrEv struct {
+		at     time.Duration // when the node had read the whole message
+		conn   *PeerConn
+		blocks []*WBlock
+	}
+	var hevs []hdrEv
+	for _, pc := range ns.Trusted.Conns {
+		for _, ev := range pc.Sent {
+			hm, ok := ev.Msg.(*wire.MsgHeaders)
+			if !ok || len(hm.Headers) == 0 {
+				continue
+			}
+			at := consumedAt(pc, ev.EndOff)
+			if at < 0 {
+				continue
+			}
+			he := hdrEv{at: at, conn: pc}
+			for _, h := range hm.Headers {
+				if b := tree.ByHash[*h.BlockHash()]; b != nil {
+					he.blocks = append(he.blocks, b)
+				}
+			}
+			if len(he.blocks) > 0 {
+				hevs = append(hevs, he)
+			}
+		}
+	}
+	sort.SliceStable(hevs, func(i, j int) bool { return hevs[i].at < hevs[j].at })
+	const grace = time.Second
+	for _, it := range items {
+		if it.req == nil {
+			continue
+		}
+		r := it.req
+		// what the node had been told by then
+		known := map[*WBlock]bool{}
+		var last *WBlock
+		var lastAt time.Duration
+		for _, he := range hevs {
+			if he.at > r.at {
+				break
+			}
+			for _, b := range he.blocks {
+				known[b] = true
+			}
+			if he.conn == r.conn {
+				last, lastAt = he.blocks[len(he.blocks)-1], he.at
+			}
+		}
+		// the latest headers message read on this connection decides which branch the peer is on;
+		// it must have been read a while ago for the request to be blamed
+		if last == nil || lastAt > r.at-grace || IsAncestor(r.b, last) || IsAncestor(last, r.b) {
+			continue
+		}
+		f := ForkPoint(last, r.b)
+		connected := true
+		for x := last; x != f; x = x.Parent {
+			if !known[x] {
+				connected = false
+			}
+		}
+		if connected {
+			c.Probe("fork_during_download")
+			c.Violate("fork", "request-beyond-fork-not-discarded", "getdata for %s written on %s at t=%v although the node had read, more than %v earlier, headers putting the peer's chain on the branch %s..%s forking at %s", r.b, r.conn, r.at, grace, f, last, f)
+			break
+		}
+	}
+	// the new branch is requested: if the node ended below the peer's tip, the first block it lacks
+	// must at least have been asked for once the node knew its header (what happens to the request
+	// afterwards is C01's concern)
+	if !ns.RunDone && ns.Start != nil {
+		best := ns.Trusted.Best
+		lh := ns.Node.VerifBlocks().LastHeight()
+		var lacking *WBlock
+		for x := best; x != nil && x.Height >= ns.Start.Height; x = x.Parent {
+			hh, err := ns.Node.VerifBlocks().Hash(quietCtx(), x.Height)
+			if x.Height > lh || err != nil || hh == nil || *hh != x.Hash {
+				lacking = x
+			} else {
+				break
+			}
+		}
+		if lacking != nil {
+			var knownSince time.Duration = -1
+			for _, he := range hevs {
+				for _, b := range he.blocks {
+					if b == lacking && knownSince < 0 {
+						knownSince = he.at
+					}
+				}
+			}
+			asked := false
+			for _, it := range items {
+				if it.req != nil && it.req.b == lacking && it.req.at >= knownSince {
+					asked = true
+				}
+			}
+			if knownSince >= 0 && !asked && ns.S.Now()-knownSince > 2*time.Minute && len(ns.Trusted.Conns) > 0 && consumedAt(ns.Trusted.Conns[len(ns.Trusted.Conns)-1], 1) >= 0 {
+				c.Violate("fork", "new-branch-not-requested", "the node read the header of %s at t=%v (peer's best chain, tip %s) and holds its parent's branch up to height %d, but never wrote a getdata for it in the following %v", lacking, knownSince, best, lh, ns.S.Now()-knownSince)
+			}
+		}
 	}
 	if maxWin >= 10 {
 		c.Probe("window_full")
